@@ -140,7 +140,7 @@ def check(run):
         for _ in range(2):
             scns.append(long_run(rng, 3250, throttle_at=[2000, 3000]))
         scns.append(long_run(rng, 2200, prefill={"count": 900, "consumed": 880}, throttle_at=[2000, 3000]))
-        scns.append(long_run(rng, 700, prefill={"count": 1990, "consumed": 1990}, throttle_at=[2000]))
+        scns.append(long_run(rng, 700, prefill={"count": 1990, "consumed": 1989}, throttle_at=[2000]))
         scns.append(long_run(rng, 640))
     # "acknowledged" must mean stored wherever a subscriber is: publishes with subscribers on two nodes while the log or the link of
     # one of them fails and recovers (QoS 1; the acknowledgement must be withheld whichever destination failed)
